@@ -55,6 +55,19 @@ def mk(n):
     return tuple(PARTS[i] for i in n)
 
 
+def spell(name, rng):
+    """the same name in another legal spelling: a one-part string name as a plain str, any name as a MemoryMap.Name object"""
+    from amaranth_soc.memory import MemoryMap
+    if name is None:
+        return None
+    r = rng.random()
+    if r < 0.25 and len(name) == 1 and isinstance(name[0], str):
+        return name[0]
+    if r < 0.5:
+        return MemoryMap.Name(name)
+    return name
+
+
 def snapshot(m):
     return ([(id(r), tuple(n), rg) for r, n, rg in m.resources()], [(id(w), None if n is None else tuple(n), rg) for w, n, rg in m.windows()],
             sorted(repr(tuple(i.path)) for i in m.all_resources()), m.align_to(0))
@@ -172,7 +185,7 @@ def check_config(ctx, cfg):
             name = rng.choice(pool)
             expect = not any(related(name, v) for v in vis[id(target)])
             try:
-                target.add_resource(R(), name=name, size=1); got = True
+                target.add_resource(R(), name=spell(name, rng), size=1); got = True
             except ValueError as e:
                 got = False
                 if "namespace" not in str(e):
@@ -196,7 +209,7 @@ def check_config(ctx, cfg):
             queries = list(vis[id(child)]) if anonymous else [name]
             expect = not any(related(qn, v) for qn in queries for v in vis[id(target)])
             try:
-                target.add_window(child, name=name); got = True
+                target.add_window(child, name=spell(name, rng)); got = True
             except ValueError as e:
                 got = False
                 if "namespace" not in str(e):
@@ -223,7 +236,7 @@ def check_config(ctx, cfg):
             queries = list(vis[id(child)]) if anonymous else [name]
             expect = not any(related(qn, v) for qn in queries for v in vis[id(target)])
             try:
-                target.add_window(child, name=name); got = True
+                target.add_window(child, name=spell(name, rng)); got = True
             except ValueError as e:
                 got = False
                 if "namespace" not in str(e):
